@@ -2067,3 +2067,157 @@ Proof.
   eapply time_wait_expires; [exact Hi | | exact Hpoll].
   right. isplit; [exact Ht | exact Htm | exact Hle].
 Qed.
+
+(* ================================================================== *)
+(** * 7. The rest of the public API: predicates, error arms, closure send/recv *)
+(* ================================================================== *)
+
+(* the predicates are the functions of the state that RFC 9293 / the documentation name *)
+Theorem predicates_spec : forall s,
+  (tcp_is_open s = true <-> s_state s <> Closed /\ s_state s <> TimeWait) /\
+  (tcp_is_active s = true <-> s_state s <> Closed /\ s_state s <> TimeWait /\ s_state s <> Listen) /\
+  (tcp_is_listening s = true <-> s_state s = Listen) /\
+  (tcp_may_send s = true <-> s_state s = Established \/ s_state s = CloseWait) /\
+  (tcp_can_recv s = true <-> rb_len (s_rx_buffer s) <> 0) /\
+  (tcp_may_recv s = true <->
+     s_state s = Established \/ s_state s = FinWait1 \/ s_state s = FinWait2 \/ rb_len (s_rx_buffer s) <> 0) /\
+  (tcp_can_send s = true <->
+     (s_state s = Established \/ s_state s = CloseWait) /\ rb_len (s_tx_buffer s) <> rb_cap (s_tx_buffer s)).
+Proof.
+  intros s.
+  unfold tcp_is_open, tcp_is_active, tcp_is_listening, tcp_can_send, tcp_may_send, tcp_may_recv, tcp_can_recv,
+         rb_is_empty, rb_is_full, rb_window.
+  destruct (Z.eqb_spec (rb_len (s_rx_buffer s)) 0) as [Er|Er];
+  destruct (Z.eqb_spec (rb_cap (s_tx_buffer s) - rb_len (s_tx_buffer s)) 0) as [Et|Et];
+  destruct (s_state s); simpl; isplit; split; intros H;
+    try discriminate H; try reflexivity; try tauto; try lia;
+    try (isplit; discriminate); try (isplit; auto; try lia; discriminate);
+    try (destruct H as [H|[H|[H|H]]]; try discriminate H; contradiction);
+    try (destruct H as [H|H]; discriminate H);
+    try (destruct H as [[H|H] H']; try discriminate H; lia);
+    try (destruct H as (H1 & H2 & H3); congruence); try (destruct H as (H1 & H2); congruence).
+Qed.
+
+(* a call that returns an error leaves the socket exactly as it was *)
+Theorem failed_call_unchanged : forall cx s ev s' e tags,
+  tcp_step_x cx s ev = Ok (s', XOut (OErr e), tags) -> s' = s.
+Proof.
+  intros cx s ev s' e tags H. destruct ev as [ev|v6 ra rp local|data|k]; simpl in H.
+  - unfold obind in H. destruct (tcp_step cx s ev) as [[[s1 o] tg]| |] eqn:E; try discriminate H.
+    inv H. destruct ev; simpl in E; unfold obind in E;
+      repeat match type of E with
+             | context [match ?x with _ => _ end] => destruct x
+             end; try discriminate E; inv E; reflexivity.
+  - destruct (tcp_connect_af cx s v6 ra rp local); inv H. reflexivity.
+  - destruct (tcp_send_with s data) as [[[? ?] ?]| |]; inv H. reflexivity.
+  - destruct (tcp_recv_with s k) as [[[? ?] ?]| |]; inv H. reflexivity.
+Qed.
+
+(* connect: exactly when each error is returned; a successful call is the IPv4 [tcp_connect] *)
+Theorem connect_af_spec : forall cx s v6 ra rp local,
+  match tcp_connect_af cx s v6 ra rp local with
+  | Err 1 => tcp_is_open s = true
+  | Err _ => tcp_is_open s = false /\
+             (rp = 0 \/ ra = 0 \/ le_port local = 0 \/ le_addr local = Some 0 \/
+              (v6 = true /\ le_addr local <> None))
+  | Ok s' => tcp_is_open s = false /\ rp <> 0 /\ ra <> 0 /\ le_port local <> 0 /\
+             tcp_connect cx s ra rp local = Ok s' /\ s_state s' = SynSent
+  | Panic => False
+  end.
+Proof.
+  intros. unfold tcp_connect_af.
+  destruct (tcp_is_open s) eqn:Eo; [reflexivity|].
+  destruct (Z.eqb_spec rp 0) as [E1|E1]; simpl; [auto|].
+  destruct (Z.eqb_spec ra 0) as [E2|E2]; simpl; [auto|].
+  destruct (Z.eqb_spec (le_port local) 0) as [E3|E3]; [auto 6|].
+  assert (K : match tcp_connect cx s ra rp local with
+              | Ok s' => s_state s' = SynSent /\ (le_addr local <> Some 0)
+              | Err _ => le_addr local = Some 0
+              | Panic => False end).
+  { unfold tcp_connect. rewrite Eo.
+    destruct (Z.eqb_spec rp 0); [contradiction|]. destruct (Z.eqb_spec ra 0); [contradiction|]. simpl.
+    destruct (Z.eqb_spec (le_port local) 0); [contradiction|].
+    destruct (le_addr local) as [a|]; simpl.
+    - destruct (Z.eqb_spec a 0); simpl; [congruence|]. split; [reflexivity | congruence].
+    - split; [reflexivity | discriminate]. }
+  destruct (le_addr local) as [a|] eqn:Ea.
+  - destruct (Z.eqb_spec a 0) as [E4|E4]; [subst; auto 8|].
+    destruct v6; [split; [reflexivity|]; do 4 right; split; [reflexivity | discriminate]|].
+    destruct (tcp_connect cx s ra rp local) as [s'|e|]; [|congruence|contradiction].
+    destruct K as [K1 K2]. isplit; auto.
+  - destruct (tcp_connect cx s ra rp local) as [s'|e|]; [|discriminate K|contradiction].
+    destruct K as [K1 K2]. isplit; auto.
+Qed.
+
+Lemma send_with_step : forall s g data s1 n sl,
+  inv s g -> tcp_send_with s data = Ok (s1, n, sl) ->
+  s_state s1 = s_state s /\ inv s1 (mkGhost (g_iss g) (g_sent g + n)) /\
+  0 <= n <= sl.
+Proof.
+  intros s g data s1 n sl (HJ & Hw & Hg & Htx & Htw & Htu & Hfl & Htc) H. unfold tcp_send_with in H.
+  destruct (tcp_may_send s) eqn:Em; [|discriminate H]. cbn [negb] in H. cbv iota in H.
+  destruct (rb_enqueue_pass (s_tx_buffer s) data) as [[tx n'] rest] eqn:Ee.
+  assert (Hsl : n' <= rb_enqueue_window (s_tx_buffer s)).
+  { unfold rb_enqueue_pass in Ee. unfold rb_enqueue_window. inv Ee. lia. }
+  apply rb_enqueue_pass_len in Ee; [|exact Htx]. destruct Ee as (L1 & L2 & L0 & L3).
+  assert (Hst : s_state s = Established \/ s_state s = CloseWait).
+  { unfold tcp_may_send in Em. destruct (s_state s); try discriminate Em; auto. }
+  assert (K : forall s2, s_state s2 = s_state s -> s_local_seq_no s2 = s_local_seq_no s ->
+              s_tx_buffer s2 = tx -> s_syn_unacked_in_fin_wait s2 = s_syn_unacked_in_fin_wait s ->
+              s_tuple s2 = s_tuple s ->
+              (s_timer s2 = s_timer s \/ exists a b, s_timer s2 = TZeroWindowProbe a b) ->
+              inv s2 (mkGhost (g_iss g) (g_sent g + n'))).
+  { intros s2 K1 K2 K3 K4 K5 K6. unfold inv, J, tx_len in *. rewrite K1, K2, K3, K4, K5.
+    unfold own_fin_seq in *. simpl.
+    isplit; auto; try lia.
+    - destruct Hst as [E|E]; rewrite E in *; rewrite L1, <- seq_add_add, HJ, seq_add_add; f_equal; lia.
+    - intros E. destruct Hst; congruence.
+    - intros e He. destruct K6 as [K6|(a & b & K6)]; [rewrite K6 in He; eauto | rewrite K6 in He; discriminate He]. }
+  inv H. unfold tcp_send_impl_post.
+  destruct (n >? 0).
+  - repeat match goal with |- context [if ?c then _ else _] => destruct c end;
+      (isplit; [reflexivity | apply K; simpl; auto; right; unfold timer_set_for_zero_window_probe; eauto | lia | exact Hsl]).
+  - isplit; [reflexivity | apply K; auto | lia | exact Hsl].
+Qed.
+
+Definition ghost_step_x (cx : ctx) (s : socket) (g : ghost) (ev : event_x) (s' : socket) (out : step_out_x) : ghost :=
+  match ev, out with
+  | XEv e, XOut o => ghost_step cx s g e s' o
+  | XConnectAf _ _ _ _, XOut OUnit => mkGhost (cx_isn cx) 0
+  | XSendWith _, XSizeSlice n _ => mkGhost (g_iss g) (g_sent g + n)
+  | _, _ => g
+  end.
+
+Definition wf_event_x (ev : event_x) : Prop :=
+  match ev with XEv e => wf_event e | _ => True end.
+
+(* allowed edges for the extended events: the closure calls never change the state, connect with
+   explicit address families is connect *)
+Definition allowed_x (s : socket) (g : ghost) (cx : ctx) (ev : event_x) (st' : tcp_state) : Prop :=
+  match ev with
+  | XEv e => allowed s g cx e st'
+  | XConnectAf _ ra rp local => allowed s g cx (EvConnect ra rp local) st'
+  | XSendWith _ | XRecvWith _ => st' = s_state s
+  end.
+
+Theorem step_x_ok : forall cx s g ev s' out tags,
+  inv s g -> wf_ctx cx -> wf_event_x ev ->
+  tcp_step_x cx s ev = Ok (s', out, tags) ->
+  allowed_x s g cx ev (s_state s') /\ inv s' (ghost_step_x cx s g ev s' out).
+Proof.
+  intros cx s g ev s' out tags Hinv Hcx Hwf H. destruct ev as [ev|v6 ra rp local|data|k]; simpl in H.
+  - unfold obind in H. destruct (tcp_step cx s ev) as [[[s1 o] tg]| |] eqn:E; inv H.
+    simpl. eapply step_ok; eassumption.
+  - pose proof (connect_af_spec cx s v6 ra rp local) as K.
+    destruct (tcp_connect_af cx s v6 ra rp local) as [s1|e|]; inv H; simpl.
+    + destruct K as (_ & _ & _ & _ & K & _). eapply connect_step; eassumption.
+    + split; [apply allowed_refl | exact Hinv].
+  - destruct (tcp_send_with s data) as [[[s1 n] sl]| |] eqn:E; inv H; simpl.
+    + destruct (send_with_step s g data _ _ _ Hinv E) as (E1 & E2 & _). auto.
+    + split; [reflexivity | exact Hinv].
+  - destruct (tcp_recv_with s k) as [[[s1 l] sl]| |] eqn:E; inv H; simpl.
+    + unfold tcp_recv_with in E. unfold obind in E. destruct (tcp_recv_error_check s); try discriminate E.
+      destruct (rb_dequeue_pass (s_rx_buffer s) k) as [rx bytes]. inv E.
+      split; [reflexivity|]. eapply inv_frame; [exact Hinv | | | | | |]; simpl; auto.
+    + split; [reflexivity | exact Hinv].
+Qed.
